@@ -341,7 +341,7 @@ func VerifKernelSchemaVersion(v string) bool {
 
 // ---- C19: Marshal order of "properties"
 
-// VerifKernelPropertyOrder: props = subset of {a,b,c,d}; order = sequence over {a,b,c,d,z}
+// VerifKernelPropertyOrder: props = subset of {a,b,c,B}; order = sequence over {a,b,c,B,z}
 // (z names no property; duplicates allowed). Duplicates are rejected by basicChecks;
 // otherwise the emitted key sequence is: listed-and-present names in list order, then
 // the remaining names ascending.
@@ -357,7 +357,7 @@ func VerifKernelPropertyOrder(pa, pb, pc, pd bool, order string) bool {
 		props["c"] = &Schema{}
 	}
 	if pd {
-		props["d"] = &Schema{}
+		props["B"] = &Schema{} // differs from "b" only in letter case
 	}
 	// the list has spare capacity (as a list built by append has): Marshal must leave the
 	// list and the memory behind it alone
@@ -404,7 +404,7 @@ func VerifKernelPropertyOrder(pa, pb, pc, pd bool, order string) bool {
 			return pb
 		case 'c':
 			return pc
-		case 'd':
+		case 'B':
 			return pd
 		}
 		return false
@@ -415,7 +415,7 @@ func VerifKernelPropertyOrder(pa, pb, pc, pd bool, order string) bool {
 			want += string(order[i])
 		}
 	}
-	for _, c := range []byte("abcd") {
+	for _, c := range []byte("Babc") { // ascending byte order
 		if !present(c) {
 			continue
 		}
@@ -633,4 +633,43 @@ func VerifKernelPropertyOrderAfterFailure(pa, pb, pc, pd bool, order string) boo
 // the array (and around the limits of the integer types), designates nothing.
 func VerifKernelDerefBigIndex(prefix, tail string) bool {
 	return VerifKernelDeref(0, "anyOf", true, prefix+tail)
+}
+
+// ---- C11: slices that share memory
+
+// VerifKernelEqualAliased: two slices over one backing array (s and s[:k], s[i:]) denote
+// different JSON arrays unless they have the same elements; sharing memory must not make
+// them equal, alone or nested in containers.
+func VerifKernelEqualAliased() bool {
+	s := []any{1.0, "a", true, nil}
+	ints := []int{7, 7, 7}
+	strs := []string{"x", "y"}
+	for k := 0; k <= len(s); k++ {
+		want := k == len(s)
+		if Equal(s, s[:k]) != want || Equal(s[:k], s) != want {
+			return false
+		}
+		if Equal([]any{s}, []any{s[:k]}) != want {
+			return false
+		}
+		if Equal(map[string]any{"x": s}, map[string]any{"x": s[:k]}) != want {
+			return false
+		}
+	}
+	for k := 0; k <= len(ints); k++ {
+		if Equal(ints, ints[:k]) != (k == len(ints)) {
+			return false
+		}
+	}
+	for k := 0; k <= len(strs); k++ {
+		if Equal(strs, strs[:k]) != (k == len(strs)) {
+			return false
+		}
+	}
+	// same length, same memory, and an alias that starts later
+	if !Equal(s, s[:len(s):len(s)]) || !Equal(ints[1:], ints[:2]) || Equal(s[1:], s[:3]) {
+		return false
+	}
+	// distinct memory, same contents
+	return Equal(s[:2], []any{1.0, "a"}) && Equal(ints[:2], []int{7, 7})
 }
